@@ -5,7 +5,8 @@ m = json.load(open('/verif/MANIFEST.json'))
 rows = []
 for c in m['checks']:
     t0 = time.time()
-    p = subprocess.run(c['quick_cmd'], shell=True, cwd='/verif', capture_output=True, text=True)
+    cmd = c['thorough_cmd'] if '--thorough' in sys.argv else c['quick_cmd']
+    p = subprocess.run(cmd, shell=True, cwd='/verif', capture_output=True, text=True)
     lines = [l for l in p.stdout.splitlines() if l.startswith(('VIOLATION', 'KNOWN'))]
     ev = json.load(open(c['evidence_file']))
     cov = ev['coverage']
